@@ -97,6 +97,30 @@ ShapeDef(i) ==
                   @@ A("S1", 2, 1) :> Fm(Bin("+", Bin("*", NameRef("Rate"), N2), RelRef(1, 2)))
                   @@ A("S1", 3, 1) :> Fm(CallN("SUM", <<RelRef(2, 1), NameRef("Rate")>>)) ),
          names |-> ("Rate" :> Ref("S1", 1, 1, TRUE, TRUE)), inputs |-> {A("S1", 1, 1), A("S1", 1, 2)}]
+    [] i = "lazy" ->         \* bare references and ranges handed to the lazily evaluating functions
+        [cells |-> ( A("S1", 1, 1) :> Kc(1) @@ A("S1", 2, 1) :> Kc(1) @@ A("S1", 3, 1) :> Kc(5)
+                  @@ A("S1", 1, 2) :> Fm(CallN("IF", <<Bin(">", RelRef(1, 1), NumLit(<<48>>)), RelRef(2, 1), RelRef(3, 1)>>))
+                  @@ A("S1", 2, 2) :> Fm(CallN("NOT", <<RelRef(1, 1)>>))
+                  @@ A("S1", 3, 2) :> Fm(CallN("IF", <<RelRef(2, 2), RelRef(1, 2), RelRef(2, 1)>>))
+                  @@ A("S1", 4, 2) :> Fm(CallN("SUM", <<CallN("IF", <<Bin(">", RelRef(1, 1), NumLit(<<48>>)), Rng("", 1, 1, 2, 1), RelRef(3, 1)>>)>>))
+                  @@ A("S1", 5, 2) :> Fm(CallN("AND", <<RelRef(1, 1), RelRef(2, 1)>>)) ),
+         names |-> <<>>, inputs |-> {A("S1", 1, 1), A("S1", 2, 1)}]
+    [] i = "qnames" ->       \* a cell name and a range name on a sheet whose name must be quoted
+        [cells |-> ( A("S 2", 1, 1) :> Kc(1) @@ A("S 2", 1, 2) :> Kc(1)
+                  @@ A("S 2", 1, 3) :> Fm(Bin("*", RelRef(1, 1), N10))
+                  @@ A("S1", 1, 1) :> Fm(CallN("SUM", <<NameRef("Block")>>))
+                  @@ A("S1", 2, 1) :> Fm(Bin("+", NameRef("Rate"), N1))
+                  @@ A("S1", 3, 1) :> Fm(Bin("+", CallN("COUNTA", <<NameRef("Block")>>), RelRef(1, 1))) ),
+         names |-> ("Block" :> [k |-> "range", sheet |-> "S 2", c1 |-> 1, r1 |-> 1, a1 |-> TRUE, b1 |-> TRUE,
+                                c2 |-> 1, r2 |-> 3, a2 |-> TRUE, b2 |-> TRUE]
+                 @@ "Rate" :> Ref("S 2", 1, 2, TRUE, TRUE)),
+         inputs |-> {A("S 2", 1, 1), A("S 2", 1, 2)}]
+    [] i = "namedf" ->       \* a defined name standing for a FORMULA cell
+        [cells |-> ( A("S1", 1, 1) :> Kc(1)
+                  @@ A("S1", 2, 1) :> Fm(Bin("*", RelRef(1, 1), N2))
+                  @@ A("S1", 3, 1) :> Fm(Bin("+", NameRef("Twice"), N1))
+                  @@ A("S1", 4, 1) :> Fm(CallN("SUM", <<NameRef("Twice"), RelRef(2, 1), RelRef(3, 1)>>)) ),
+         names |-> ("Twice" :> Ref("S1", 2, 1, TRUE, TRUE)), inputs |-> {A("S1", 1, 1)}]
     [] i = "cross" ->
         [cells |-> ( A("S1", 1, 1) :> Kc(1) @@ A("S 2", 1, 1) :> Kc(1)
                   @@ A("S 2", 2, 1) :> Fm(Bin("*", RelRef(1, 1), N3))
@@ -108,6 +132,7 @@ ShapeDef(i) ==
 content == [c \in DOMAIN ShapeDef(shape).cells |-> IF c \in DOMAIN inp THEN [c |-> "const", v |-> inp[c]] ELSE ShapeDef(shape).cells[c]]
 Cells == DOMAIN ShapeDef(shape).cells
 Names == DOMAIN ShapeDef(shape).names
+CellNames == {nm \in Names : ShapeDef(shape).names[nm].k = "ref"}          \* names standing for one cell
 Inputs == ShapeDef(shape).inputs
 FormulaCells == {c \in Cells : content[c].c = "formula"}
 \* TRUE: equal to the initial 1 under a naive ==, but another value; 0: a value that "holds nothing" to a naive truth test
@@ -129,9 +154,24 @@ RefsOf(a, sh) ==
       [] a.k \in {"neg", "pct", "paren"} -> RefsOf(a.x, sh)
       [] a.k = "call"  -> RefsOfArgs(a.args, sh)
       [] OTHER -> {}
+\* the references an evaluation really follows: IF evaluates its condition and the selected branch only
+RECURSIVE RefsEval(_, _, _)
+RECURSIVE RefsEvalArgs(_, _, _)
+RefsEvalArgs(xs, sh, cont) == IF Len(xs) = 0 THEN {} ELSE RefsEval(xs[1], sh, cont) \cup RefsEvalArgs(Tail(xs), sh, cont)
+RefsEval(a, sh, cont) ==
+    CASE a.k = "call" /\ a.f = "IF" /\ Len(a.args) \in {2, 3} ->
+            LET c == Eval(a.args[1], sh, Wb(cont))
+                tr == IF c.t = "err" THEN "err" ELSE Truth(c)
+            IN RefsEval(a.args[1], sh, cont)
+               \cup (IF tr = "t" THEN RefsEval(a.args[2], sh, cont)
+                     ELSE IF tr = "f" /\ Len(a.args) = 3 THEN RefsEval(a.args[3], sh, cont) ELSE {})
+      [] a.k = "call"  -> RefsEvalArgs(a.args, sh, cont)
+      [] a.k = "bin"   -> RefsEval(a.l, sh, cont) \cup RefsEval(a.r, sh, cont)
+      [] a.k \in {"neg", "pct", "paren"} -> RefsEval(a.x, sh, cont)
+      [] OTHER -> RefsOf(a, sh)
 RECURSIVE Reach(_, _)
-Reach(cont, c) == \* formula cells reached from formula cell c, c included (acyclic shapes)
-    {c} \cup UNION {Reach(cont, d) : d \in {d \in RefsOf(cont[c].ast, c[1]) : d \in DOMAIN cont /\ cont[d].c = "formula"}}
+Reach(cont, c) == \* formula cells an evaluation of formula cell c evaluates, c included (acyclic shapes)
+    {c} \cup UNION {Reach(cont, d) : d \in {d \in RefsEval(cont[c].ast, c[1], cont) : d \in DOMAIN cont /\ cont[d].c = "formula"}}
 
 (* ---- the mechanism ---- *)
 Frozen == CASE Mech = "need_update" -> evald [] Mech = "global_memo" -> DOMAIN gmemo [] OTHER -> {}
@@ -165,7 +205,8 @@ Set(a, val) ==
     /\ UNCHANGED <<shape, evald, gmemo, leak>>
 
 SetByName(nm, val) ==
-    /\ CanStep /\ nm \in Names
+    /\ CanStep /\ nm \in CellNames
+    /\ <<ShapeDef(shape).names[nm].sheet, ShapeDef(shape).names[nm].col, ShapeDef(shape).names[nm].row>> \in Inputs
     /\ LET t == ShapeDef(shape).names[nm]  a == <<t.sheet, t.col, t.row>> IN
        /\ inp' = [inp EXCEPT ![a] = val]
        /\ stored' = [c \in DOMAIN stored \cup {a} |-> IF c = a THEN val ELSE stored[c]]
@@ -234,7 +275,7 @@ Extract(fc, fn) == \* fc: focused cells, fn: focused names
 
 Next == \/ Persist
         \/ PersistMid
-        \/ \E fc \in SUBSET Cells, fn \in SUBSET Names : Extract(fc, fn)
+        \/ \E fc \in SUBSET Cells, fn \in SUBSET CellNames : Extract(fc, fn)
         \/ "set" \in Ops /\ \E a \in Inputs, i \in 1..Len(SetVals) : Set(a, SetVals[i])
         \/ "setname" \in Ops /\ \E nm \in Names, i \in 1..Len(SetVals) : SetByName(nm, SetVals[i])
         \/ "evaluate" \in Ops /\ \E e \in 1..NEval, c \in Cells : Evaluate(e, c)
